@@ -374,11 +374,9 @@ def special_cased_names(repo):
   """Built-in names ConvertToSql handles in dedicated branches that precede
   the generic table loop."""
   v = FnView(repo, 'expr_translate.QL.ConvertToSql')
-  loops = [n for n in v.cfg.stmt_nodes()
-           if isinstance(v.cfg.stmt[n], ast.For) and
-           'built_in_functions' in norm(v.cfg.stmt[n].iter)]
+  loops = [n for n, _ in K.table_dispatch(v, 'built_in_functions')]
   if not loops:
-    raise AnalysisError('ConvertToSql: generic loop over built_in_functions not found')
+    raise AnalysisError('ConvertToSql: generic dispatch over built_in_functions not found')
   loop = loops[0]
   names = set()
   for n in v.cfg.stmt_nodes():
